@@ -115,3 +115,11 @@ Fixpoint chk (cs : list call) (ms : list (option (Z * Z * Z))) (os : list (Z * Z
 Definition chk_nat (b : backend) (k : kind) (T : cty) (strict_ub : bool) (cs : list call) (v0 : Z)
   (os : list (Z * Z * Z)) : list nat :=
   chk cs (run_obs (impl_of b k) (fence_of b) (sem_eval strict_ub) T cs v0) os 0.
+
+(* two models against two observed runs of the same calls (the calls are parsed once): [n] ++ first ++ second,
+   n = length of the first result *)
+Definition chk_nat2 (b1 b2 : backend) (k : kind) (T : cty) (cs : list call) (v0 : Z)
+  (os1 os2 : list (Z * Z * Z)) : list nat :=
+  let r1 := chk_nat b1 k T false cs v0 os1 in
+  let r2 := chk_nat b2 k T false cs v0 os2 in
+  length r1 :: r1 ++ r2.
